@@ -10,8 +10,8 @@ CHECKS = {
         text="Theorem C01_verdict (Coq, every graph, every strict rule, no bound): the model of Rule.assert_applies returns Pass exactly when the "
              "documented semantics (Model/SpecRule.v) hold and Fail otherwise, never an error (C01_total); the three public graph queries are "
              "proved equal to the documented comprehensions on pairwise unrelated filters; the four worklist loops of breadth_first_searches.py, transcribed in Model/Worklist.v, are proved to terminate and to return exactly "
-             "the comprehension model's imports on every well-formed graph for any filters (C01_loop_*), and every graph the library builds is well-formed (C01_built_graph_wellformed). Tie to /repo: every case evaluated by the real Rule API "
-             "and the extracted model (verdict compared), exhaustive over import relations of three 5-node trees in thorough, plus random/scanned trees; "
+             "the comprehension model's imports on every well-formed graph for any filters (C01_loop_*); the whole evaluation over those loops (Model/WRule.v) terminates and has the outcome of the comprehension model for every configuration (C01_loops_verdict); every graph the library builds is well-formed (C01_built_graph_wellformed). Tie to /repo: every case evaluated by the real Rule API "
+             "and by the extracted model in both forms - comprehension queries and worklist loops - (verdict and report compared), exhaustive over import relations of three 5-node trees in thorough, plus random/scanned trees; "
              "strict rules are additionally checked against an independent executable reading of the documented semantics; the three public query functions are called directly "
              "and their result maps compared with the comprehension model and with the worklist model.",
         note="Theorems cover the 12 verb x direction x except shapes with name / sub-modules-of filters on the strict domain and the two 'anything' aliases for pairwise unrelated subjects (C01_alias_verdict); "
